@@ -1,7 +1,7 @@
 (* C05: flag facts, ownership of created objects, refinement of the exported tree and of the replies by
    the direct system calls, per request and along whole histories. *)
 From Coq Require Import List NArith Bool Lia.
-From FB Require Import Gen.Validators Model.Names Model.HostFs Model.Passthrough Proofs.HostFs Proofs.PassthroughCreds.
+From FB Require Import Gen.Validators Model.Names Model.HostFs Model.Passthrough Proofs.HostFs Proofs.PassthroughConfined Proofs.PassthroughCreds.
 Import ListNotations.
 Local Open Scope N_scope.
 
@@ -89,6 +89,11 @@ Theorem owner_of_caller : forall uid gid dv, uid <> 0 ->
 Proof. intros. split; reflexivity. Qed.
 
 (* ---- the direct calls *)
+(* what do_lookup returns and records *)
+Definition looked_mode (tbl : list (N * idata)) (i : N) (st : attr) : N :=
+  match find_by_host i tbl with Some (_, d0) => id_mode d0 | None => a_mode st end.
+
+
 Definition kp_open (cf : cfg) (fuse_flags : N) : bool := c_killpriv cf && has fuse_flags FOPEN_IN_KILL_SUIDGID.
 (* credentials in force inside [with_killpriv kp (with_creds uid gid ...)] entered as root *)
 Definition caller_creds_kp (kp : bool) (uid gid : N) : creds := mkCreds uid gid ((uid =? 0) && negb kp).
@@ -97,8 +102,8 @@ Definition root_kp (kp : bool) : creds := mkCreds 0 0 (negb kp).
 Definition I (s : pstate) (f : N) : option N := option_map id_host (assoc f (p_inodes s)).
 
 (* reopening an inode of the map for I/O: the gate on the recorded file type, then the magic-link open *)
-Definition direct_open (cf : cfg) (c : creds) (s : pstate) (h : host) (inode flags : N) : res (N * N) * host :=
-  match assoc inode (p_inodes s) with
+Definition direct_open (cf : cfg) (c : creds) (tbl : list (N * idata)) (h : host) (inode flags : N) : res (N * N) * host :=
+  match assoc inode tbl with
   | None => (Err EBADF, h)
   | Some d =>
       if negb (is_safe_inode (id_mode d)) then (Err EBADF, h)
@@ -113,13 +118,23 @@ Definition direct_open (cf : cfg) (c : creds) (s : pstate) (h : host) (inode fla
 Definition direct_fd (cf : cfg) (s : pstate) (handle inode flags : N) : res hdata * host :=
   if negb (c_no_open cf) then
     match handle_get s handle inode with Ok hd => (Ok hd, p_host s) | Err e => (Err e, p_host s) end
-  else match direct_open cf root_creds s (p_host s) inode flags with
+  else match direct_open cf root_creds (p_inodes s) (p_host s) inode flags with
        | (Err e, h') => (Err e, h')
        | (Ok (hi, fl), h') => (Ok (new_hdata inode hi fl flags), h')
        end.
 
 Definition fd_append (hd : hdata) (flags : N) : bool :=
   if hd_flags hd =? flags then hd_append hd else has flags O_APPEND.
+
+Definition size_step (cf : cfg) (tbl : list (N * idata)) (h2 : host) (inode : N) (hdo : option hdata) (valid size : N) : host :=
+  let c := root_kp (c_killpriv cf && has valid FATTR_KILL_SUIDGID) in
+  match hdo with
+  | Some hd => if acc_w (hd_acc hd) then snd (sys_ftruncate c h2 (hd_host hd) size) else h2
+  | None => match direct_open cf c tbl h2 inode (O_NONBLOCK + O_RDWR) with
+            | (Err _, h3) => h3
+            | (Ok (hi, _), h3) => snd (sys_ftruncate c h3 hi size)
+            end
+  end.
 
 (* the host tree after the same calls made directly, with the caller's identity where the code installs it *)
 Definition direct_host (cf : cfg) (s : pstate) (q : req) : host :=
@@ -156,9 +171,9 @@ Definition direct_host (cf : cfg) (s : pstate) (q : req) : host :=
       if negb (c_xattr cf) then h else
       match I s i with Some a => snd (sys_removexattr root_creds h a n) | None => h end
   | QOpen inode flags ff =>
-      if c_no_open cf then h else snd (direct_open cf (root_kp (kp_open cf ff)) s h inode flags)
+      if c_no_open cf then h else snd (direct_open cf (root_kp (kp_open cf ff)) (p_inodes s) h inode flags)
   | QOpendir inode flags =>
-      if c_no_opendir cf then h else snd (direct_open cf root_creds s h inode (N.lor flags O_DIRECTORY))
+      if c_no_opendir cf then h else snd (direct_open cf root_creds (p_inodes s) h inode (N.lor flags O_DIRECTORY))
   | QWrite inode handle off data flags ff =>
       match direct_fd cf s handle inode O_RDWR with
       | (Err _, h') => h'
@@ -197,15 +212,7 @@ Definition direct_host (cf : cfg) (s : pstate) (q : req) : host :=
             match r2 with
             | Err _ => h2
             | Ok _ =>
-              if has valid FATTR_SIZE then
-                let c := root_kp (c_killpriv cf && has valid FATTR_KILL_SUIDGID) in
-                match hdo with
-                | Some hd => if acc_w (hd_acc hd) then snd (sys_ftruncate c h2 (hd_host hd) size) else h2
-                | None => match direct_open cf c s h2 inode (O_NONBLOCK + O_RDWR) with
-                          | (Err _, h3) => h3
-                          | (Ok (hi, _), h3) => snd (sys_ftruncate c h3 hi size)
-                          end
-                end
+              if has valid FATTR_SIZE then size_step cf (p_inodes s) h2 inode hdo valid size
               else h2
             end
           end
@@ -227,8 +234,7 @@ Definition direct_host (cf : cfg) (s : pstate) (q : req) : host :=
                     match stat h' i with
                     | Err _ => h'
                     | Ok st =>
-                        let m := match find_by_host i (p_inodes s) with Some (_, d0) => id_mode d0 | None => a_mode st end in
-                        if negb (is_safe_inode m) then h'
+                        if negb (is_safe_inode (looked_mode (p_inodes s) i st)) then h'
                         else snd (sys_reopen (caller_creds_kp (kp_open cf ff) uid gid) h' i
                                     (clear (clear (N.lor (clear (get_writeback_open_flags cf flags) O_DIRECT) O_CLOEXEC) O_NOFOLLOW) O_CREAT))
                     end
@@ -239,3 +245,381 @@ Definition direct_host (cf : cfg) (s : pstate) (q : req) : host :=
   (* requests that never modify the tree *)
   | _ => h
   end.
+
+(* ---- auxiliary facts *)
+Lemma eta_creds : forall s, with_creds_of s (p_creds s) = s.
+Proof. destruct s; reflexivity. Qed.
+
+Lemma with_killpriv_from_root : forall A cond s (body : pstate -> A * pstate),
+  p_creds s = root_creds ->
+  exists c r s1, body (with_creds_of s (root_kp cond)) = (r, s1) /\ with_killpriv cond s body = (r, with_creds_of s1 c).
+Proof.
+  intros A cond s body Hc. unfold with_killpriv. rewrite Hc. cbn [fsetid root_creds]. rewrite andb_true_r.
+  destruct cond.
+  - destruct (body (with_creds_of s (cap_drop_fsetid root_creds))) as [r s1] eqn:Hb.
+    eexists; exists r, s1. split; [exact Hb | reflexivity].
+  - destruct (body s) as [r s1] eqn:Hb. exists (p_creds s1), r, s1. split.
+    + unfold root_kp. cbn [negb]. change (mkCreds 0 0 true) with root_creds. rewrite <- Hc, eta_creds. exact Hb.
+    + rewrite eta_creds. reflexivity.
+Qed.
+
+Lemma with_creds_from_rootkp : forall A kp uid gid s (body : pstate -> res A * pstate),
+  p_creds s = root_kp kp ->
+  exists c r0 s1, body (with_creds_of s (caller_creds_kp kp uid gid)) = (r0, s1) /\
+                  with_creds uid gid s body = (r0, with_creds_of s1 c).
+Proof.
+  intros A kp uid gid s body Hc.
+  destruct (body (with_creds_of s (caller_creds_kp kp uid gid))) as [r0 s1] eqn:Hb.
+  unfold with_creds. rewrite Hc. unfold sys_setresgid, sys_setresuid, root_kp. cbn [euid egid fsetid].
+  unfold caller_creds_kp in Hb.
+  destruct (gid =? 0) eqn:Hg; destruct (uid =? 0) eqn:Hu; cbn [N.eqb orb andb euid egid fsetid];
+    try (apply N.eqb_eq in Hg; subst gid); try (apply N.eqb_eq in Hu; subst uid); cbn [N.eqb andb] in *;
+    rewrite ?Hu in *; cbn [andb] in *; rewrite Hb; eexists; exists r0, s1; split; reflexivity.
+Qed.
+
+Lemma open_inode_direct : forall cf s inode flags,
+  open_inode cf s inode flags =
+  (fst (direct_open cf (p_creds s) (p_inodes s) (p_host s) inode flags), with_host s (snd (direct_open cf (p_creds s) (p_inodes s) (p_host s) inode flags))).
+Proof.
+  intros cf s inode flags. unfold open_inode, direct_open.
+  destruct (assoc inode (p_inodes s)) as [d|]; [|destruct s; reflexivity].
+  destruct (negb (is_safe_inode (id_mode d))); [destruct s; reflexivity|].
+  match goal with |- context [sys_reopen ?c ?h ?i ?f] => destruct (sys_reopen c h i f) as [[u|e] h'] end; reflexivity.
+Qed.
+
+Lemma get_data_direct : forall cf s handle inode flags r s1, p_creds s = root_creds ->
+  get_data cf (c_no_open cf) s handle inode flags = (r, s1) ->
+  p_host s1 = snd (direct_fd cf s handle inode flags) /\ p_creds s1 = root_creds /\
+  p_handles s1 = p_handles s /\ p_inodes s1 = p_inodes s /\
+  match r with Ok (_, hd) => fst (direct_fd cf s handle inode flags) = Ok hd
+             | Err e => fst (direct_fd cf s handle inode flags) = Err e end.
+Proof.
+  intros cf s handle inode flags r s1 Hc H. unfold get_data in H. unfold direct_fd.
+  destruct (negb (c_no_open cf)).
+  - destruct (handle_get s handle inode); inversion H; subst; repeat split; assumption || reflexivity.
+  - rewrite open_inode_direct in H. rewrite Hc in H.
+    destruct (direct_open cf root_creds (p_inodes s) (p_host s) inode flags) as [[[hi fl]|e] h']; cbn [fst snd] in H;
+      inversion H; subst; repeat split; assumption || reflexivity.
+Qed.
+
+Lemma check_fd_flags_direct : forall s hid hd flags hd' s', check_fd_flags s hid hd flags = (hd', s') ->
+  hd_host hd' = hd_host hd /\ hd_acc hd' = hd_acc hd /\ hd_append hd' = fd_append hd flags /\
+  p_host s' = p_host s /\ p_creds s' = p_creds s.
+Proof.
+  intros s hid hd flags hd' s' H. unfold check_fd_flags in H. unfold fd_append.
+  destruct (hd_flags hd =? flags); [inversion H; subst; repeat split; reflexivity|].
+  destruct hid; inversion H; subst; repeat split; reflexivity.
+Qed.
+
+Ltac inv4 H := inversion H; subst; clear H.
+Ltac fin4 H := inversion H as [[E1 E2 E3 E4]]; clear H; rewrite <- ?E4; cbn [p_host with_host with_creds_of].
+
+Lemma do_lookup_host : forall s p n r s', do_lookup s p n = (r, s') -> p_host s' = p_host s.
+Proof.
+  intros s p n r s' H. unfold do_lookup in H.
+  destruct (assoc p (p_inodes s)); [|inversion H; subst; reflexivity].
+  destruct (lookup1 _ _ _ _); [|inversion H; subst; reflexivity].
+  destruct (stat _ _); [|inversion H; subst; reflexivity].
+  destruct (find_by_host _ _) as [[f d]|]; [inversion H; subst; reflexivity|].
+  destruct (assoc _ (p_idmap s)); inversion H; subst; reflexivity.
+Qed.
+Lemma entry_reply_host : forall s p n rp io s', entry_reply (do_lookup s p n) = (rp, io, s') -> p_host s' = p_host s.
+Proof.
+  intros s p n rp io s' H. destruct (do_lookup s p n) as [[[f a]|e] s1] eqn:Hl; cbn in H; inversion H; subst;
+    apply (do_lookup_host _ _ _ _ _ Hl).
+Qed.
+Lemma with_host_eta : forall s, with_host s (p_host s) = s.
+Proof. destruct s; reflexivity. Qed.
+
+Lemma create_then_lookup_host : forall s uid gid parent n call rp io s' d,
+  p_creds s = root_creds -> assoc parent (p_inodes s) = Some d ->
+  create_then_lookup s uid gid parent n call = (rp, io, s') ->
+  p_host s' = snd (call (caller_creds uid gid) (p_host s) (id_host d)).
+Proof.
+  intros s uid gid parent n call rp io s' d Hc Ha H. unfold create_then_lookup in H. rewrite Ha in H.
+  match type of H with context [with_creds uid gid s ?b] => destruct (with_creds_from_root _ uid gid s b Hc) as [c [r [s1 [Hb Hw]]]] end.
+  rewrite Hw in H. clear Hw. cbn [p_creds with_creds_of p_host] in Hb.
+  destruct (call (caller_creds uid gid) (p_host s) (id_host d)) as [r1 h'] eqn:Hcall.
+  inversion Hb; subst r1 s1. cbn [snd].
+  destruct r.
+  - rewrite (entry_reply_host _ _ _ _ _ _ H). reflexivity.
+  - inversion H; subst. reflexivity.
+Qed.
+
+Lemma setattr_size_direct : forall cf s2 inode hdo valid size r3 s3, p_creds s2 = root_creds ->
+  setattr_size cf s2 inode hdo valid size = (r3, s3) ->
+  p_host s3 = size_step cf (p_inodes s2) (p_host s2) inode hdo valid size /\ p_inodes s3 = p_inodes s2 /\ p_handles s3 = p_handles s2.
+Proof.
+  intros cf s2 inode hdo valid size r3 s3 Hc Hs. unfold setattr_size in Hs. unfold size_step.
+  match type of Hs with with_killpriv ?c ?s0 ?b = _ => destruct (with_killpriv_from_root _ c s0 b Hc) as [c1 [r [s1 [Hb Hw]]]]; rewrite Hw in Hs; inversion Hs; subst r3 s3; clear Hs Hw end.
+  destruct hdo as [hd|].
+  - destruct (acc_w (hd_acc hd)); [|inversion Hb; subst; repeat split; reflexivity].
+    cbn [p_creds p_host with_creds_of with_host] in Hb.
+    match type of Hb with context [sys_ftruncate ?c ?h ?i ?z] => destruct (sys_ftruncate c h i z) as [rr hh] end.
+    inversion Hb; subst. repeat split; reflexivity.
+  - rewrite open_inode_direct in Hb. cbn [p_creds p_host with_creds_of with_host p_inodes] in Hb.
+    destruct (direct_open cf (root_kp (c_killpriv cf && has valid FATTR_KILL_SUIDGID)) (p_inodes s2) (p_host s2) inode (O_NONBLOCK + O_RDWR)) as [[[hi fl]|e] h3];
+      cbn [fst snd p_creds p_host with_host with_creds_of] in Hb.
+    + match type of Hb with context [sys_ftruncate ?c ?h ?i ?z] => destruct (sys_ftruncate c h i z) as [rr hh] end.
+      inversion Hb; subst. repeat split; reflexivity.
+    + inversion Hb; subst. repeat split; reflexivity.
+Qed.
+
+Lemma with_creds_from_root_r : forall A uid gid s (body : pstate -> res A * pstate),
+  p_creds s = root_creds ->
+  (forall s0 r0 s1, body s0 = (r0, s1) -> p_creds s1 = p_creds s0) ->
+  exists r0 s1, body (with_creds_of s (caller_creds uid gid)) = (r0, s1) /\
+                with_creds uid gid s body = (r0, with_creds_of s1 root_creds).
+Proof.
+  intros A uid gid s body Hc Hk. destruct (with_creds_from_root A uid gid s body Hc) as [c [r0 [s1 [Hb Hw]]]].
+  exists r0, s1. split; [exact Hb|].
+  pose proof (proj1 (with_creds_root _ _ _ _ _ _ _ Hk Hw) Hc) as Hr. cbn in Hr. subst c. exact Hw.
+Qed.
+
+(* what do_lookup returns and records *)
+Lemma do_lookup_spec : forall s p n r s2 dir, assoc p (p_inodes s) = Some dir -> do_lookup s p n = (r, s2) ->
+  p_host s2 = p_host s /\ p_creds s2 = p_creds s /\ p_handles s2 = p_handles s /\
+  match lookup1 (p_creds s) (p_host s) (id_host dir) (lookup_name (p =? ROOT_ID) n) with
+  | Err e => r = Err e /\ s2 = s
+  | Ok i => match stat (p_host s) i with
+            | Err e => r = Err e /\ s2 = s
+            | Ok st => exists f d', r = Ok (f, st) /\ assoc f (p_inodes s2) = Some d' /\ id_host d' = i /\
+                                    id_mode d' = looked_mode (p_inodes s) i st
+            end
+  end.
+Proof.
+  intros s p n r s2 dir Ha H. pose proof (do_lookup_host _ _ _ _ _ H) as Hh. pose proof (do_lookup_creds _ _ _ _ _ H) as Hcr.
+  split; [exact Hh|]. split; [exact Hcr|]. unfold do_lookup in H. rewrite Ha in H.
+  destruct (lookup1 (p_creds s) (p_host s) (id_host dir) (lookup_name (p =? ROOT_ID) n)) as [i|e];
+    [|inversion H; subst; repeat split; reflexivity].
+  destruct (stat (p_host s) i) as [st|e]; [|inversion H; subst; repeat split; reflexivity].
+  unfold looked_mode. destruct (find_by_host i (p_inodes s)) as [[f d0]|] eqn:Hf.
+  - destruct (find_by_host_some _ _ _ _ Hf) as [Hi _]. inversion H; subst. split; [reflexivity|].
+    eexists; eexists. split; [reflexivity|]. split; [cbn; apply assoc_set_same|]. split; reflexivity.
+  - destruct (assoc i (p_idmap s)); inversion H; subst; (split; [reflexivity|]);
+      (eexists; eexists; split; [reflexivity|]; split; [cbn; apply assoc_set_same|]; split; reflexivity).
+Qed.
+
+(* ---- the exported tree after every request is the tree after the direct calls: EVERY request kind,
+   EVERY configuration *)
+Definition C05_full : Prop := forall cf s q rp io ho s',
+  p_creds s = root_creds -> pstep cf s q = (rp, io, ho, s') -> p_host s' = direct_host cf s q.
+
+Lemma do_open_direct : forall cf s inode flags ff rp s', p_creds s = root_creds ->
+  do_open cf s inode flags ff = (rp, s') ->
+  p_host s' = snd (direct_open cf (root_kp (c_killpriv cf && has ff FOPEN_IN_KILL_SUIDGID)) (p_inodes s) (p_host s) inode flags).
+Proof.
+  intros cf s inode flags ff rp s' Hc H. unfold do_open in H.
+  match type of H with context [with_killpriv ?c s ?b] => destruct (with_killpriv_from_root _ c s b Hc) as [c1 [r [s1 [Hb Hw]]]]; rewrite Hw in H; clear Hw end.
+  rewrite open_inode_direct in Hb. cbn [p_creds p_host with_creds_of with_host p_inodes] in Hb.
+  destruct (direct_open cf (root_kp (c_killpriv cf && has ff FOPEN_IN_KILL_SUIDGID)) (p_inodes s) (p_host s) inode flags) as [[[hi fl]|e] h'];
+    cbn [fst snd] in Hb; inversion Hb; subst; cbn [snd].
+  - unfold insert_handle in H. inversion H; subst. reflexivity.
+  - inversion H; subst. reflexivity.
+Qed.
+
+(* create on a name that exists: the open of the existing inode under the two guards *)
+Lemma create_existing_host : forall cf s2 f flags ff uid gid rf s3 d', p_creds s2 = root_creds ->
+  assoc f (p_inodes s2) = Some d' ->
+  with_killpriv (c_killpriv cf && has ff FOPEN_IN_KILL_SUIDGID) s2
+     (fun s0 => with_creds uid gid s0 (fun s00 => open_inode cf s00 f flags)) = (rf, s3) ->
+  p_host s3 = (if negb (is_safe_inode (id_mode d')) then p_host s2
+               else snd (sys_reopen (caller_creds_kp (kp_open cf ff) uid gid) (p_host s2) (id_host d')
+                          (clear (clear (N.lor (clear (get_writeback_open_flags cf flags) O_DIRECT) O_CLOEXEC) O_NOFOLLOW) O_CREAT))).
+Proof.
+  intros cf s2 f flags ff uid gid rf s3 d' Hc Ha H.
+  match type of H with with_killpriv ?c ?s0 ?b = _ => destruct (with_killpriv_from_root _ c s0 b Hc) as [c1 [r [s1 [Hb Hw]]]]; rewrite Hw in H; inversion H; subst rf s3; clear H Hw end.
+  match type of Hb with with_creds uid gid ?s0 ?b = _ =>
+    destruct (with_creds_from_rootkp _ (c_killpriv cf && has ff FOPEN_IN_KILL_SUIDGID) uid gid s0 b eq_refl) as [c2 [r0 [s4 [Hb2 Hw2]]]];
+    rewrite Hw2 in Hb; inversion Hb; subst r s1; clear Hb Hw2 end.
+  rewrite open_inode_direct in Hb2. cbn [p_creds p_host with_creds_of with_host p_inodes] in Hb2.
+  unfold direct_open in Hb2. rewrite Ha in Hb2. unfold kp_open.
+  destruct (negb (is_safe_inode (id_mode d'))); [inversion Hb2; subst; reflexivity|].
+  match type of Hb2 with context [sys_reopen ?c ?h ?i ?fl] => destruct (sys_reopen c h i fl) as [[u|e] h3] end;
+    cbn [fst snd] in Hb2; inversion Hb2; subst; reflexivity.
+Qed.
+
+Theorem tree_full : C05_full.
+Proof.
+  intros cf s q rp io ho s' Hc H. unfold pstep in H. unfold direct_host, I. destruct q; cbv beta zeta in H |- *.
+  - (* lookup *)
+    destruct (lookup_check n); [inv4 H; reflexivity|].
+    destruct (entry_reply (do_lookup s parent n)) as [[rp0 io0] s0] eqn:He. inv4 H. apply (entry_reply_host _ _ _ _ _ _ He).
+  - (* forget *) inv4 H. unfold forget_one. destruct (inode =? ROOT_ID); [reflexivity|]. destruct (assoc inode (p_inodes s)); reflexivity.
+  - (* getattr *) destruct (do_getattr cf s inode handle); inv4 H; reflexivity.
+  - (* setattr *)
+    destruct (assoc inode (p_inodes s)) as [d|] eqn:Ha; [|inv4 H; reflexivity].
+    match type of H with context [match ?x with Ok hdo => _ | Err e => _ end] => destruct x as [hdo|e] end; [|inv4 H; reflexivity].
+    rewrite Hc in H.
+    match goal with |- context [if has valid FATTR_MODE then ?a else ?b] => destruct (if has valid FATTR_MODE then a else b) as [r1 h1] eqn:X1 end.
+    match type of H with context [let '(r1, s1) := ?x in _] =>
+      assert (E1 : x = (r1, with_host s h1));
+      [ destruct (has valid FATTR_MODE);
+        [ match goal with |- context [sys_chmod ?c ?h ?t ?m] => destruct (sys_chmod c h t m) as [ra ha] end; inversion X1; subst; reflexivity
+        | inversion X1; subst; rewrite with_host_eta; reflexivity ]
+      | rewrite E1 in H; clear E1 ] end.
+    destruct r1 as [u1|e1]; [|inv4 H; reflexivity].
+    cbn [p_creds p_host with_host] in H. rewrite Hc in H.
+    match goal with |- context [if has valid FATTR_UID || has valid FATTR_GID then ?a else ?b] =>
+      destruct (if has valid FATTR_UID || has valid FATTR_GID then a else b) as [r2 h2] eqn:X2 end.
+    match type of H with context [let '(r2, s2) := ?x in _] =>
+      assert (E2 : x = (r2, with_host s h2));
+      [ destruct (has valid FATTR_UID || has valid FATTR_GID);
+        [ match goal with |- context [sys_chown ?c ?h ?t ?u ?g] => destruct (sys_chown c h t u g) as [ra ha] end; inversion X2; subst; reflexivity
+        | inversion X2; subst; reflexivity ]
+      | rewrite E2 in H; clear E2 ] end.
+    destruct r2 as [u2|e2]; [|inv4 H; reflexivity].
+    destruct (has valid FATTR_SIZE).
+    + match type of H with context [setattr_size ?a ?b ?c ?d0 ?e ?f] => destruct (setattr_size a b c d0 e f) as [r3 s3] eqn:Hs end.
+      destruct (setattr_size_direct _ (with_host s h2) _ _ _ _ _ _ Hc Hs) as [Hh _]. cbn [p_inodes p_host with_host] in Hh.
+      destruct r3; [|inv4 H; exact Hh]. destruct (do_getattr cf s3 inode handle); inv4 H; exact Hh.
+    + destruct (do_getattr cf (with_host s h2) inode handle); inv4 H; reflexivity.
+  - (* mkdir *)
+    destruct (validate cf n); [inv4 H; reflexivity|].
+    destruct (assoc parent (p_inodes s)) as [d|] eqn:Ha; cbn [option_map].
+    + match type of H with context [create_then_lookup ?a ?b ?c ?d0 ?e ?f] => destruct (create_then_lookup a b c d0 e f) as [[rp0 io0] s0] eqn:Hx end.
+      inv4 H. apply (create_then_lookup_host _ _ _ _ _ _ _ _ _ _ Hc Ha Hx).
+    + unfold create_then_lookup in H. rewrite Ha in H. inv4 H. reflexivity.
+  - (* mknod *)
+    destruct (validate cf n); [inv4 H; reflexivity|].
+    destruct (assoc parent (p_inodes s)) as [d|] eqn:Ha; cbn [option_map].
+    + match type of H with context [create_then_lookup ?a ?b ?c ?d0 ?e ?f] => destruct (create_then_lookup a b c d0 e f) as [[rp0 io0] s0] eqn:Hx end.
+      inv4 H. apply (create_then_lookup_host _ _ _ _ _ _ _ _ _ _ Hc Ha Hx).
+    + unfold create_then_lookup in H. rewrite Ha in H. inv4 H. reflexivity.
+  - (* create *)
+    destruct (validate cf n); [inv4 H; reflexivity|].
+    destruct (assoc parent (p_inodes s)) as [d|] eqn:Ha; [|inv4 H; reflexivity].
+    match type of H with context [with_creds uid gid s ?b] =>
+      destruct (with_creds_from_root_r _ uid gid s b Hc) as [r [s1 [Hb Hw]]];
+      [ intros s0 r0 s9 Hk;
+        match type of Hk with context [sys_openat_creat_excl ?c0 ?h ?i ?nn ?f ?m] => destruct (sys_openat_creat_excl c0 h i nn f m) as [[ia|ea] ha] end;
+        [ inversion Hk; subst; reflexivity | destruct ((ea =? EEXIST) && negb _); inversion Hk; subst; reflexivity ]
+      | rewrite Hw in H; clear Hw ] end.
+    cbn [p_creds p_host with_creds_of] in Hb.
+    match goal with |- context [sys_openat_creat_excl ?c0 ?h ?i ?nn ?f ?m] => destruct (sys_openat_creat_excl c0 h i nn f m) as [r0 h'] eqn:Hce end.
+    destruct r0 as [i0|e0].
+    + inversion Hb; subst r s1. clear Hb.
+      destruct (do_lookup _ parent n) as [[[f a]|e] s2] eqn:Hl; pose proof (do_lookup_host _ _ _ _ _ Hl) as Hh2; cbn [p_host with_creds_of with_host] in Hh2.
+      * destruct (c_no_open cf); [fin4 H; exact Hh2|]. unfold insert_handle in H. fin4 H. exact Hh2.
+      * fin4 H. exact Hh2.
+    + destruct ((e0 =? EEXIST) && negb (has (get_writeback_open_flags cf flags) O_EXCL)) eqn:Hex.
+      * inversion Hb; subst r s1. clear Hb.
+        destruct (do_lookup _ parent n) as [rl s2] eqn:Hl.
+        destruct (do_lookup_spec (with_creds_of (with_host (with_creds_of s (caller_creds uid gid)) h') root_creds) _ _ _ _ d Ha Hl) as [Hh2 [Hc2 [_ Hsp]]].
+        cbn [p_host p_creds p_inodes with_creds_of with_host] in Hh2, Hc2, Hsp.
+        destruct (lookup1 root_creds h' (id_host d) (lookup_name (parent =? ROOT_ID) n)) as [i|e].
+        -- destruct (stat h' i) as [st|e].
+           ++ destruct Hsp as [f [d' [-> [Had [Hid Him]]]]].
+              match type of H with context [let '(rf, s3) := ?x in _] => destruct x as [rf s3] eqn:H3 end.
+              pose proof (create_existing_host _ _ _ _ _ _ _ _ _ _ Hc2 Had H3) as Hh3.
+              rewrite Hh2, Hid, Him in Hh3.
+              assert (Hfin : p_host s' = p_host s3).
+              { destruct rf as [[hi fl]|e]; [|fin4 H; unfold forget_one; destruct (f =? ROOT_ID); [reflexivity|]; destruct (assoc f (p_inodes s3)); reflexivity].
+                destruct (c_no_open cf); [fin4 H; reflexivity|]. unfold insert_handle in H. fin4 H. reflexivity. }
+              rewrite Hfin. exact Hh3.
+           ++ destruct Hsp as [-> ->]. fin4 H. reflexivity.
+        -- destruct Hsp as [-> ->]. fin4 H. reflexivity.
+      * inversion Hb; subst r s1. fin4 H. reflexivity.
+  - (* symlink *)
+    destruct (validate cf n); [inv4 H; reflexivity|].
+    destruct (assoc parent (p_inodes s)) as [d|] eqn:Ha; cbn [option_map].
+    + match type of H with context [create_then_lookup ?a ?b ?c ?d0 ?e ?f] => destruct (create_then_lookup a b c d0 e f) as [[rp0 io0] s0] eqn:Hx end.
+      inv4 H. apply (create_then_lookup_host _ _ _ _ _ _ _ _ _ _ Hc Ha Hx).
+    + unfold create_then_lookup in H. rewrite Ha in H. inv4 H. reflexivity.
+  - (* link *)
+    destruct (validate cf n); [inv4 H; reflexivity|].
+    destruct (assoc inode (p_inodes s)) as [d|]; cbn [option_map]; [|inv4 H; reflexivity].
+    destruct (assoc newparent (p_inodes s)) as [nd|]; cbn [option_map]; [|inv4 H; reflexivity].
+    rewrite Hc in H. destruct (sys_linkat root_creds (p_host s) (id_host d) (id_host nd) n) as [[u|e] h'] eqn:Hl; cbn [snd].
+    + match type of H with context [entry_reply ?x] => destruct (entry_reply x) as [[rp0 io0] s0] eqn:He end. inv4 H.
+      rewrite (entry_reply_host _ _ _ _ _ _ He). reflexivity.
+    + inv4 H. reflexivity.
+  - (* unlink *)
+    destruct (validate cf n); [inv4 H; reflexivity|].
+    destruct (assoc parent (p_inodes s)) as [d|]; cbn [option_map]; [|inv4 H; reflexivity].
+    rewrite Hc in H. destruct (sys_unlinkat root_creds (p_host s) (id_host d) n 0) as [[u|e] h']; inv4 H; reflexivity.
+  - (* rmdir *)
+    destruct (validate cf n); [inv4 H; reflexivity|].
+    destruct (assoc parent (p_inodes s)) as [d|]; cbn [option_map]; [|inv4 H; reflexivity].
+    rewrite Hc in H. destruct (sys_unlinkat root_creds (p_host s) (id_host d) n AT_REMOVEDIR) as [[u|e] h']; inv4 H; reflexivity.
+  - (* rename *)
+    destruct (validate cf on); [inv4 H; reflexivity|].
+    destruct (validate cf nn); [inv4 H; reflexivity|].
+    destruct (assoc olddir (p_inodes s)) as [od|]; cbn [option_map]; [|inv4 H; reflexivity].
+    destruct (assoc newdir (p_inodes s)) as [nd|]; cbn [option_map]; [|inv4 H; reflexivity].
+    rewrite Hc in H. destruct (sys_renameat2 root_creds (p_host s) (id_host od) on (id_host nd) nn flags) as [[u|e] h']; inv4 H; reflexivity.
+  - (* open *)
+    destruct (c_no_open cf); [inv4 H; reflexivity|].
+    destruct (do_open cf s inode flags fuse_flags) as [rp0 s0] eqn:Ho.
+    pose proof (do_open_direct _ _ _ _ _ _ _ Hc Ho) as Hh. destruct rp0; inv4 H; exact Hh.
+  - (* opendir *)
+    destruct (c_no_opendir cf); [inv4 H; reflexivity|].
+    destruct (do_open cf s inode (N.lor flags O_DIRECTORY) 0) as [rp0 s0] eqn:Ho.
+    pose proof (do_open_direct _ _ _ _ _ _ _ Hc Ho) as Hh.
+    replace (c_killpriv cf && has 0 FOPEN_IN_KILL_SUIDGID) with false in Hh by (rewrite andb_false_r; reflexivity).
+    destruct rp0; inv4 H; exact Hh.
+  - (* release *)
+    destruct (c_no_open cf); [inv4 H; reflexivity|]. destruct (handle_get s handle inode); inv4 H; reflexivity.
+  - (* releasedir *)
+    destruct (c_no_opendir cf); [inv4 H; reflexivity|]. destruct (handle_get s handle inode); inv4 H; reflexivity.
+  - (* read *)
+    destruct (get_data cf (c_no_open cf) s handle inode O_RDONLY) as [r s1] eqn:Hg.
+    destruct (get_data_direct _ _ _ _ _ _ _ Hc Hg) as [Hh1 _].
+    destruct r as [[hid hd]|e]; [|inv4 H; exact Hh1].
+    destruct (check_fd_flags s1 hid hd flags) as [hd' s2] eqn:Hf.
+    destruct (check_fd_flags_direct _ _ _ _ _ _ Hf) as [_ [_ [_ [Hh2 _]]]].
+    destruct (negb (acc_r (hd_acc hd'))); [inv4 H; rewrite Hh2; exact Hh1|].
+    destruct (sys_pread (p_host s2) (hd_host hd') size off); inv4 H; rewrite Hh2; exact Hh1.
+  - (* write *)
+    destruct (get_data cf (c_no_open cf) s handle inode O_RDWR) as [r s1] eqn:Hg.
+    destruct (get_data_direct _ _ _ _ _ _ _ Hc Hg) as [Hh1 [Hc1 [_ [_ Hr]]]].
+    destruct (direct_fd cf s handle inode O_RDWR) as [rd hd0] eqn:Hd. cbn [fst snd] in Hh1, Hr.
+    destruct r as [[hid hd]|e]; [|subst rd; fin4 H; exact Hh1]. subst rd.
+    destruct (check_fd_flags s1 hid hd flags) as [hd' s2] eqn:Hf.
+    destruct (check_fd_flags_direct _ _ _ _ _ _ Hf) as [Hho [Hac [Hap [Hh2 Hc2]]]].
+    match type of H with context [with_killpriv ?c s2 ?b] =>
+      destruct (with_killpriv_from_root _ c s2 b (eq_trans Hc2 Hc1)) as [c1 [r [s3 [Hb Hw]]]]; rewrite Hw in H; clear Hw end.
+    rewrite <- Hac.
+    destruct (negb (acc_w (hd_acc hd'))).
+    + injection Hb as Er Es. destruct r; fin4 H; rewrite <- Es; cbn [p_host with_creds_of]; rewrite Hh2; exact Hh1.
+    + cbn [p_creds p_host with_creds_of] in Hb. rewrite Hh2, Hh1, Hho, Hap in Hb.
+      match type of Hb with context [sys_pwrite ?c ?h ?i ?a ?o ?dd] => destruct (sys_pwrite c h i a o dd) as [rr hh] end.
+      injection Hb as Er Es. destruct r; fin4 H; rewrite <- Es; reflexivity.
+  - (* readlink *)
+    destruct (assoc inode (p_inodes s)); [|inv4 H; reflexivity]. destruct (sys_readlink (p_host s) (id_host i)); inv4 H; reflexivity.
+  - (* setxattr *)
+    destruct (negb (c_xattr cf)); [inv4 H; reflexivity|].
+    destruct (assoc inode (p_inodes s)) as [d|]; cbn [option_map]; [|inv4 H; reflexivity].
+    rewrite Hc in H. destruct (sys_setxattr root_creds (p_host s) (id_host d) n v flags) as [[u|e] h']; inv4 H; reflexivity.
+  - (* getxattr *)
+    destruct (negb (c_xattr cf)); [inv4 H; reflexivity|]. destruct (assoc inode (p_inodes s)); [|inv4 H; reflexivity].
+    destruct (sys_getxattr (p_creds s) (p_host s) (id_host i) n size) as [[v|c]|e]; inv4 H; reflexivity.
+  - (* listxattr *)
+    destruct (negb (c_xattr cf)); [inv4 H; reflexivity|]. destruct (assoc inode (p_inodes s)); [|inv4 H; reflexivity].
+    destruct (sys_listxattr (p_host s) (id_host i) size) as [[v|c]|e]; inv4 H; reflexivity.
+  - (* removexattr *)
+    destruct (negb (c_xattr cf)); [inv4 H; reflexivity|].
+    destruct (assoc inode (p_inodes s)) as [d|]; cbn [option_map]; [|inv4 H; reflexivity].
+    rewrite Hc in H. destruct (sys_removexattr root_creds (p_host s) (id_host d) n) as [[u|e] h']; inv4 H; reflexivity.
+  - (* fallocate *)
+    destruct (get_data cf (c_no_open cf) s handle inode O_RDWR) as [r s1] eqn:Hg.
+    destruct (get_data_direct _ _ _ _ _ _ _ Hc Hg) as [Hh1 [Hc1 [_ [_ Hr]]]].
+    destruct (direct_fd cf s handle inode O_RDWR) as [rd hd0] eqn:Hd. cbn [fst snd] in Hh1, Hr.
+    destruct r as [[hid hd]|e]; [|subst rd; fin4 H; exact Hh1]. subst rd.
+    destruct (negb (acc_w (hd_acc hd))); [fin4 H; exact Hh1|].
+    rewrite Hc1, Hh1 in H.
+    destruct (sys_fallocate root_creds hd0 (hd_host hd) mode off l) as [[u|e] h']; fin4 H; reflexivity.
+  - (* lseek *)
+    destruct (handle_get s handle inode) as [hd|]; [|inv4 H; reflexivity].
+    destruct (stat (p_host s) (hd_host hd)); [|inv4 H; reflexivity].
+    match type of H with context [match ?x with Some p => _ | None => _ end] => destruct x as [p|] end; [|inv4 H; reflexivity].
+    destruct (9223372036854775807 <? p); inv4 H; reflexivity.
+  - (* fsync *)
+    destruct (get_data cf (c_no_open cf) s handle inode O_RDONLY) as [r s1] eqn:Hg.
+    destruct (get_data_direct _ _ _ _ _ _ _ Hc Hg) as [Hh1 _]. destruct r; inv4 H; exact Hh1.
+  - (* flush *)
+    destruct (c_no_open cf); [inv4 H; reflexivity|]. destruct (handle_get s handle inode); inv4 H; reflexivity.
+  - (* statfs *) destruct (assoc inode (p_inodes s)); inv4 H; reflexivity.
+  - (* access *)
+    destruct (assoc inode (p_inodes s)); [|inv4 H; reflexivity]. destruct (stat (p_host s) (id_host i)); inv4 H; reflexivity.
+Qed.
